@@ -557,7 +557,9 @@ Record chan := Chan {
   c_bans : list (str * Z); c_ignores : list (str * Z) }.
 
 Definition default_off_caps : list str := map (fun c => DASH :: c) gen.T16.DEFAULT_OFF.
-Definition fresh_chan : chan := Chan false true default_off_caps [] [].
+(* self.c of a new IrcChannelCreator: IrcChannel(), whose capability set the creator clears or not (table) *)
+Definition creator_caps : list str := if gen.T16.CHAN_CREATOR_DEFAULTS then default_off_caps else [].
+Definition fresh_chan : chan := Chan false true creator_caps [] [].
 
 Definition sort_exp (l : list (str * Z)) : list (str * Z) :=
   sort_by (fun a b => Z.leb (snd a) (snd b)) l.
@@ -809,6 +811,91 @@ Definition max_id (db : list user) (z0 : Z) : Z := fold_left (fun m u => Z.max m
 Definition users_dom (db : list user) : bool := users_dom_sorted (sort_users db).
 
 (* ------------------------------------------------------------------ *)
+(* domains for channels.conf, networks.conf and the ignores file (added; nothing above changes) *)
+
+Definition sort_named {A} (db : list (str * A)) : list (str * A) :=
+  sort_by (fun a b => str_leb (fst a) (fst b)) db.
+
+(* record keys in file order: a rest-of-line value the reader returns unchanged, already lower-cased
+   (setChannel/setNetwork store channel.lower()), and new under the rfc1459 folding of IrcDict *)
+Fixpoint keys_ok (seen : list str) (ks : list str) : bool :=
+  match ks with
+  | [] => true
+  | k :: ks' =>
+      safe_field k && seq_eqb (lower k) k
+      && negb (existsb (fun k' => seq_eqb (fold k) (fold k')) seen)
+      && keys_ok (seen ++ [k]) ks'
+  end.
+
+Fixpoint nodup_b (l : list str) : bool :=
+  match l with [] => true | x :: l' => negb (smem x l') && nodup_b l' end.
+(* r and l are the same set (r duplicate-free, same length, included) *)
+Definition perm_eqb (r l : list str) : bool :=
+  Nat.eqb (length r) (length l) && nodup_b r && forallb (fun x => smem x l) r.
+
+(* the capability set a channel has after reload: the written ones re-added on top of what the creator starts from *)
+Definition reload_caps (caps : list str) : list str :=
+  match fold_res cs_add caps creator_caps with Ok r => r | Raise _ => caps end.
+Definition caps_reload_same (caps : list str) : bool :=
+  match fold_res cs_add caps creator_caps with Ok r => perm_eqb r caps | Raise _ => false end.
+
+(* a pattern -> value dictionary written one "key value" pair per line: keys are tokens and distinct *)
+Definition assoc_stable {V} (eqv : V -> V -> bool) (l : list (str * V)) : bool :=
+  forallb (fun kv => token (fst kv)) l
+  && list_eqb (fun a b => seq_eqb (fst a) (fst b) && eqv (snd a) (snd b))
+              (fold_left (fun d kv => dict_set (fst kv) (snd kv) d) l []) l.
+
+(* every capability the creator starts with (IrcChannel()'s default anticapabilities, table
+   CHAN_CREATOR_DEFAULTS) is still in the saved set, or its inverse is: then re-adding is a no-op *)
+Definition defaults_covered (caps : list str) : bool :=
+  forallb (fun d => smem d caps
+                    || match invertCapability d with Ok i => smem i caps | Raise _ => false end) creator_caps.
+Definition chan_ok (c : chan) : bool :=
+  forallb token (c_caps c) && defaults_covered (c_caps c) && caps_reload_same (c_caps c)
+  && assoc_stable Z.eqb (sort_exp (c_bans c)) && assoc_stable Z.eqb (sort_exp (c_ignores c)).
+Definition canon_chan (c : chan) : chan :=
+  Chan (c_lobo c) (c_default c) (reload_caps (c_caps c)) (sort_exp (c_bans c)) (sort_exp (c_ignores c)).
+
+Definition chan_dom_sorted (db : list (str * chan)) : bool :=
+  keys_ok [] (map fst db) && forallb (fun kc => chan_ok (snd kc)) db.
+Definition chan_dom (db : list (str * chan)) : bool := chan_dom_sorted (sort_named db).
+
+Definition sort_key {V} (l : list (str * V)) : list (str * V) := sort_by (fun a b => str_leb (fst a) (fst b)) l.
+Definition net_ok (n : net) : bool :=
+  assoc_stable seq_eqb (sort_key (n_sts n)) && forallb (fun sp => token (snd sp)) (n_sts n)
+  && assoc_stable Z.eqb (sort_key (n_disc n)).
+Definition canon_net (n : net) : net := Net (sort_key (n_sts n)) (sort_key (n_disc n)).
+Definition net_nonempty (n : net) : bool :=
+  match n_sts n, n_disc n with [], [] => false | _, _ => true end.
+(* what a reload keeps: every network that has a policy or a disconnect time, and the last record of
+   the file even if it has none (a record without lines is overwritten by the next header) *)
+Fixpoint net_expected (l : list (str * net)) : list (str * net) :=
+  match l with
+  | [] => []
+  | [kn] => [(fst kn, canon_net (snd kn))]
+  | kn :: l' => if net_nonempty (snd kn) then (fst kn, canon_net (snd kn)) :: net_expected l' else net_expected l'
+  end.
+Definition net_dom_sorted (db : list (str * net)) : bool :=
+  keys_ok [] (map fst db) && forallb (fun kn => net_ok (snd kn)) db.
+Definition net_dom (db : list (str * net)) : bool := net_dom_sorted (sort_named db).
+
+(* ignores: what flush writes at time now, and when the written lines read back one for one *)
+Definition ign_kept (now : Z) (he : str * expiry) : bool := exp_after now (snd he) || exp_zero (snd he).
+Fixpoint ign_ok (seen : list str) (l : list (str * expiry)) : bool :=
+  match l with
+  | [] => true
+  | he :: l' =>
+      token (fst he) && is_user_hostmask (fst he) && negb (hd_is HASH (fst he))
+      && Z.leb 0 (e_int (snd he))
+      && match e_frac (snd he) with None => true | Some f => forallb is_digit f end
+      && negb (existsb (seq_eqb (fst he)) seen)
+      && ign_ok (seen ++ [fst he]) l'
+  end.
+Definition ign_dom (now : Z) (db : list (str * expiry)) : bool := ign_ok [] (filter (ign_kept now) db).
+Definition ign_expected (now : Z) (db : list (str * expiry)) : list (str * Z) :=
+  map (fun he => (fst he, e_int (snd he))) (filter (ign_kept now) db).
+
+(* ------------------------------------------------------------------ *)
 (* wire                                                                *)
 
 Definition vZ (z : Z) : value := I z.
@@ -847,11 +934,14 @@ Definition run (v : value) : value :=
   | 3 => vS (write_channels (gPairs gChan p))
   | 4 => let r := read_channels_from (gO gS (nth_v 0 p)) (gS (nth_v 1 p)) in
          L [vPairs vChan (cs_db (fst r)); vExn (snd r); vO vS (cs_name (fst r))]
+  | 5 => vB (chan_dom (gPairs gChan p))
   | 6 => vS (write_networks (gPairs gNet p))
   | 7 => let r := read_networks_from (gO gS (nth_v 0 p)) (gS (nth_v 1 p)) in
          L [vPairs vNet (ns_db (fst r)); vExn (snd r); vO vS (ns_name (fst r))]
+  | 8 => vB (net_dom (gPairs gNet p))
   | 9 => vS (write_ignores (gZ (nth_v 0 p)) (gPairs gExp (nth_v 1 p)))
   | 10 => vPairs vZ (read_ignores (gS p))
+  | 11 => vB (ign_dom (gZ (nth_v 0 p)) (gPairs gExp (nth_v 1 p)))
   | 12 => vB (glob (gS (nth_v 0 p)) (gS (nth_v 1 p)))
   | 13 => vB (is_user_hostmask (gS p))
   | _ => L []
